@@ -19,6 +19,8 @@ use serde_json::{json, Value};
 
 thread_local! {
     pub static LAST_PANIC: RefCell<Option<String>> = const { RefCell::new(None) };
+    /// depth of `catch` / `catch_async` scopes on this thread: a panic outside them is a harness bug and is printed
+    pub static IN_CATCH: RefCell<usize> = const { RefCell::new(0) };
 }
 
 pub fn panic_site(info: &std::panic::PanicHookInfo<'_>) -> String {
@@ -44,7 +46,10 @@ pub fn panic_site(info: &std::panic::PanicHookInfo<'_>) -> String {
 /// Runs `f`, turning a panic into `Err(site)`.
 pub fn catch<T>(f: impl FnOnce() -> T) -> Result<T, String> {
     LAST_PANIC.with(|p| *p.borrow_mut() = None);
-    match std::panic::catch_unwind(std::panic::AssertUnwindSafe(f)) {
+    IN_CATCH.with(|c| *c.borrow_mut() += 1);
+    let r = std::panic::catch_unwind(std::panic::AssertUnwindSafe(f));
+    IN_CATCH.with(|c| *c.borrow_mut() -= 1);
+    match r {
         Ok(v) => Ok(v),
         Err(_) => Err(LAST_PANIC.with(|p| p.borrow_mut().take()).unwrap_or_else(|| "?".into())),
     }
@@ -194,12 +199,18 @@ pub fn main_for(p: &mut dyn Prop) {
     let opts = Opts::parse(&args[1..]);
     // Panics inside the code under test are observations, not harness failures; keep stderr quiet.
     std::panic::set_hook(Box::new(|info| {
-        LAST_PANIC.with(|p| *p.borrow_mut() = Some(panic_site(info)));
+        let site = panic_site(info);
+        if IN_CATCH.with(|c| *c.borrow()) == 0 {
+            eprintln!("harness panic (outside catch): {site}");
+        }
+        LAST_PANIC.with(|p| *p.borrow_mut() = Some(site));
     }));
     if let Err(e) = drive(p, &opts) {
         eprintln!("harness error: {e:#}");
         std::process::exit(3);
     }
+    // skip destructors: background tasks of the code under test (scopes) must not be dropped mid-flight
+    std::process::exit(0);
 }
 
 /// Async version of `catch`: a panic raised while polling `fut` becomes `Err(site)`.
@@ -207,7 +218,10 @@ pub async fn catch_async<F: std::future::Future>(fut: F) -> Result<F::Output, St
     let mut fut = Box::pin(fut);
     LAST_PANIC.with(|p| *p.borrow_mut() = None);
     std::future::poll_fn(move |cx| {
-        match std::panic::catch_unwind(std::panic::AssertUnwindSafe(|| fut.as_mut().poll(cx))) {
+        IN_CATCH.with(|c| *c.borrow_mut() += 1);
+        let r = std::panic::catch_unwind(std::panic::AssertUnwindSafe(|| fut.as_mut().poll(cx)));
+        IN_CATCH.with(|c| *c.borrow_mut() -= 1);
+        match r {
             Ok(std::task::Poll::Ready(v)) => std::task::Poll::Ready(Ok(v)),
             Ok(std::task::Poll::Pending) => std::task::Poll::Pending,
             Err(_) => std::task::Poll::Ready(Err(LAST_PANIC.with(|p| p.borrow_mut().take()).unwrap_or_else(|| "?".into()))),
